@@ -159,6 +159,15 @@ class Sys(object):
             S.sim_time.sleep(ev[1])
         elif op == "add_cb":
             self.res.add_callback(self.cb(ev[1]))
+        elif op == "add_cb_nested":
+            # a callback that, when it runs, registers one more callback on the same result (re-entrant registration)
+            inner = self.cb(ev[1] + 10)
+            outer = self.cb(ev[1])
+
+            def nesting(r, outer=outer, inner=inner):
+                outer(r)
+                self.res.add_callback(inner)
+            self.res.add_callback(nesting)
         elif op == "ready":
             r = self.res.ready
         elif op == "error":
@@ -233,6 +242,7 @@ class Model(object):
         self.arrivals = []        # (time, kind) scheduled/arrived replies, in order
         self.status = "pending"   # pending | ready | expired
         self.kind = None
+        self.nested = {}          # callback id -> id of the callback it registers when it runs
         self.cbs = []             # registered callback ids in order
         self.ran = []             # callbacks that must have run, in order
 
@@ -309,6 +319,10 @@ def check_history(mode, T, hist):
 
         if op == "add_cb":
             m.cbs.append(ev[1])
+            continue
+        if op == "add_cb_nested":
+            m.cbs.append(ev[1])
+            m.nested[ev[1]] = ev[1] + 10
             continue
         # --- what may the status be after this operation?
         if m.status == "pending":
@@ -418,8 +432,17 @@ def check_history(mode, T, hist):
     ran = [i for (i, _, _) in sy.cblog]
     final_ready = bool(_raw_ready(res))
     if final_ready:
-        # every registered callback must have run exactly once, in registration order
-        if ran != m.cbs:
+        # every registered callback must have run exactly once, in registration order; a callback registered by a
+        # running callback is registered after readiness and therefore runs at once (right after its registrant)
+        want_order = []
+        for c_ in m.cbs:
+            want_order.append(c_)
+            if c_ in m.nested:
+                want_order.append(m.nested[c_])
+        if ran != want_order:
+            viol.append(("callbacks:ran=%s:expected=%s" % (len(ran), len(want_order)),
+                         "history %r: callbacks ran %r, expected %r" % (hist, ran, want_order)))
+        elif False and ran != m.cbs:
             viol.append(("callbacks:ran=%s:registered=%s" % (len(ran), len(m.cbs)),
                          "history %r: callbacks ran %r, registered %r" % (hist, ran, m.cbs)))
     else:
@@ -476,6 +499,8 @@ def enabled_events(sy, m, arrivals, now, thorough=None):
     for i in (1, 2):
         if i not in m.cbs:
             evs.append(("add_cb", i))
+            if i == 1 or thorough:
+                evs.append(("add_cb_nested", i))
             break
     evs += [("ready",), ("expired",), ("error",)]
     if sy.a.inbox:
